@@ -96,7 +96,7 @@ func (s *Storage) applyKeyFault(op string, kind string) *key.CertificateAndKey {
 }
 
 func runC10(c *Ctx) {
-	c.rep.Rule = "for every endpoint (SSO, callback POST/Redirect, logout, attribute query, metadata unsigned/signed, certificate, readiness, health): the storage-call trace of a fault-free run of a valid request is recorded, then the request is re-run with a fault at the 1st, 2nd, ... call occurrence - singly and in pairs - with each fault kind (returned error; for the two signing-key getters additionally nil record, key without certificate, certificate without key, empty certificate) and with an unusable signature algorithm. Non-trivial = the faulted call was reached; distinct = (endpoint, fault set)."
+	c.rep.Rule = "for every endpoint (SSO, callback POST/Redirect, logout, attribute query, metadata unsigned/signed, certificate, readiness, health): the storage-call trace of a fault-free run of a valid request is recorded, then the request is re-run with a fault at the 1st, 2nd, ... call occurrence - singly and in pairs - with each fault kind (returned error; for the two signing-key getters additionally nil record, key without certificate, certificate without key, empty certificate, and an error returned together with a complete record) and with an unusable signature algorithm. Non-trivial = the faulted call was reached; distinct = (endpoint, fault set)."
 	initKeys()
 	for _, ep := range c10Endpoints() {
 		// baseline
@@ -121,7 +121,7 @@ func runC10(c *Ctx) {
 			occ[call.Op]++
 			kinds := []string{"error"}
 			if call.Op == "GetResponseSigningKey" || call.Op == "GetMetadataSigningKey" {
-				kinds = append(kinds, "nil", "nokey", "nocert", "emptycert")
+				kinds = append(kinds, "nil", "nokey", "nocert", "emptycert", "errwithrecord")
 			}
 			for _, k := range kinds {
 				sites = append(sites, faultSpec{call.Op, occ[call.Op], k})
